@@ -42,8 +42,8 @@ Mark(ep, d) == [ep EXCEPT !.dev = @ \cup {d}]
 FPreface == [t |-> "PREFACE"]
 FSettings(pairs) == [t |-> "SET", ack |-> FALSE, s |-> pairs]
 FSettingsAck == [t |-> "SET", ack |-> TRUE, s |-> <<>>]
-FHeaders(sid, es, h, pr) == [t |-> "HEADERS", sid |-> sid, es |-> es, h |-> h, pr |-> pr]
-FPush(sid, pid, h) == [t |-> "PP", sid |-> sid, pid |-> pid, h |-> h]
+FHeaders(sid, es, h, pr) == [t |-> "HEADERS", sid |-> sid, es |-> es, h |-> h, pr |-> pr, blk |-> "ok"]   \* h: tokens
+FPush(sid, pid, h) == [t |-> "PP", sid |-> sid, pid |-> pid, h |-> h, blk |-> "ok"]
 FData(sid, es, n, tag, pad) == [t |-> "DATA", sid |-> sid, es |-> es, n |-> n, tag |-> tag, pad |-> pad]
 FRst(sid, code) == [t |-> "RST", sid |-> sid, code |-> code]
 FPing(ack, tag) == [t |-> "PING", ack |-> ack, tag |-> tag]
@@ -51,6 +51,11 @@ FGoAway(last, code, tag) == [t |-> "GOAWAY", last |-> last, code |-> code, tag |
 FWU(sid, inc) == [t |-> "WU", sid |-> sid, inc |-> inc]
 FPrio(sid, w, dep, excl) == [t |-> "PRIO", sid |-> sid, w |-> w, dep |-> dep, excl |-> excl]
 FAlt(sid, org, fld) == [t |-> "ALT", sid |-> sid, org |-> org, fld |-> fld]
+\* what an observer of the byte stream sees of a frame (header tokens -> decoded fields)
+PubFrame(f) == IF f.t = "HEADERS" THEN [t |-> "HEADERS", sid |-> f.sid, es |-> f.es, h |-> WireList(f.h, "b"), pr |-> f.pr]
+               ELSE IF f.t = "PP" THEN [t |-> "PP", sid |-> f.sid, pid |-> f.pid, h |-> WireList(f.h, "b")]
+               ELSE f
+PubFrames(fs) == [i \in 1..Len(fs) |-> PubFrame(fs[i])]
 
 \* ---------------------------------------------------------------- events
 EvHdr(t, sid, h, se, pu) == [t |-> t, sid |-> sid, h |-> h, se |-> se, pu |-> pu]
